@@ -134,6 +134,9 @@ def gen_input(rng, kind):
     if kind == "filter":
         case = H.filter_case(rng)
         case["kind"] = "filter"
+        if rng.random() < 0.6:          # score ties inside overlap groups
+            for hit in case["hits"]:
+                hit[4] = rng.choice([10.0, 20.0])
         return case
     if kind == "hmmer":
         case = H.hmmer_case(rng)
